@@ -403,7 +403,36 @@ func init() {
 				}
 				return inner(c, s, ev)
 			}
+			// positive requirements: some assignment sets the flag under needsTable == true, and some
+			// assignment folds result.err into the accumulated error under result.err != nil
+			setsFlag, foldsErr := false, false
+			inner2 := spec.Step
+			spec.Step = func(c *pathsim.Ctx, s pathsim.State, ev *pathsim.Event) []pathsim.State {
+				if ev.Kind == pathsim.EvAssign && len(ev.Lhs) == 1 && len(ev.Rhs) == 1 && ev.Node.Pos() > collect.Pos() && ev.Node.End() <= collect.End() {
+					lhs := prog.IdentObj(c.Info, ev.Lhs[0])
+					if lhs == flag && s.V[0] == pathsim.True {
+						if tv, ok := c.Info.Types[ev.Rhs[0]]; ok && tv.Value != nil && tv.Value.String() == "true" {
+							setsFlag = true
+						}
+					}
+					if lhs == errAcc && s.V[1] == pathsim.True {
+						ast.Inspect(ev.Rhs[0], func(m ast.Node) bool {
+							if sel, ok := m.(*ast.SelectorExpr); ok && isResField(c, sel, "err") {
+								foldsErr = true
+							}
+							return true
+						})
+					}
+				}
+				return inner2(c, s, ev)
+			}
 			r.Sim(f.Decl, f.Name(), spec)
+			if !setsFlag {
+				r.Fail(f.Name()+":flag-never-set", collect.Pos(), nil, "the result loop never sets the 'a neighbour needs the table' flag on a result with needsTable == true: every shared table would be judged exclusively owned and deleted")
+			}
+			if !foldsErr {
+				r.Fail(f.Name()+":error-never-kept", collect.Pos(), nil, "the result loop never folds a neighbour's non-nil error into the returned error: a neighbour that could not be asked counts as 'does not need the table' and the table is deleted")
+			}
 			// one receive per neighbour
 			recvs := 0
 			ast.Inspect(collect.Body, func(nd ast.Node) bool {
@@ -429,6 +458,154 @@ func init() {
 			r.Site(f.Decl.Pos(), "shortcut only when the own range contains the table's range")
 			if !okShort {
 				r.Note("no containment shortcut")
+			}
+		}})
+
+	register(&Obligation{ID: "C09.h", Props: []string{"C09", "C06"}, Template: "guard+value-identity",
+		Desc: "the two shortcuts that skip asking a neighbour are sound: ExclusivelyOwnsTable answers (true, nil) before asking only if the own range Contains the range KeyGroupRangeFromBytes(startKey[:2], endKey[:2]) built from the table's first and last key in that order; neighborPartition.NeedsTable answers 'not needed' without the RPC only if the neighbour's range does not Overlap the table's range (Start from the first key, End from the last key), and otherwise returns the neighbour's own answer",
+		Run: func(r *Run) {
+			f := r.P.Func("workers/operator", "(*OperatorPartition).ExclusivelyOwnsTable")
+			info := f.Pkg.TypesInfo
+			contains := r.P.FuncObj("partitioning", "KeyGroupRange.Contains")
+			overlaps := r.P.FuncObj("partitioning", "KeyGroupRange.Overlaps")
+			fromBytes := r.P.FuncObj("partitioning", "KeyGroupRangeFromBytes")
+			kgFromBytes := r.P.FuncObj("partitioning", "KeyGroupFromBytes")
+			ownRange := r.P.Field("workers/operator", "OperatorPartition", "keyGroupRange")
+			isKeyPrefix := func(fi *prog.FuncInfo, e ast.Expr, param int) bool {
+				sl, ok := ast.Unparen(e).(*ast.SliceExpr)
+				if !ok || !r.isParam(fi, sl.X, param) || sl.High == nil {
+					return false
+				}
+				tv, ok := fi.Pkg.TypesInfo.Types[sl.High]
+				return ok && tv.Value != nil && tv.Value.String() == "2" && (sl.Low == nil || fi.Pkg.TypesInfo.Types[sl.Low].Value != nil && fi.Pkg.TypesInfo.Types[sl.Low].Value.String() == "0")
+			}
+			// the table range local in ExclusivelyOwnsTable
+			var tblRange types.Object
+			ast.Inspect(f.Decl.Body, func(nd ast.Node) bool {
+				as, ok := nd.(*ast.AssignStmt)
+				if !ok || len(as.Lhs) != 1 || len(as.Rhs) != 1 {
+					return true
+				}
+				call, ok := ast.Unparen(as.Rhs[0]).(*ast.CallExpr)
+				if !ok || r.P.CalleeFunc(info, call) != fromBytes || len(call.Args) != 2 {
+					return true
+				}
+				r.Site(call.Pos(), "table range = KeyGroupRangeFromBytes(startKey[:2], endKey[:2])")
+				if isKeyPrefix(f, call.Args[0], 1) && isKeyPrefix(f, call.Args[1], 2) {
+					tblRange = prog.IdentObj(info, as.Lhs[0])
+				} else {
+					r.Fail(f.Name()+":table-range", call.Pos(), nil, "the table's key-group range is not built from (startKey[:2], endKey[:2]) in that order: with the arguments swapped the range is empty or inverted, the containment shortcut answers 'exclusively owned' for tables that reach into a neighbour's range")
+				}
+				return true
+			})
+			atomFor := func(fn *types.Func, recvField *types.Var, arg func() types.Object) func(c *pathsim.Ctx, e ast.Expr) (int, bool, bool) {
+				return func(c *pathsim.Ctx, e ast.Expr) (int, bool, bool) {
+					call, ok := ast.Unparen(e).(*ast.CallExpr)
+					if !ok || r.P.CalleeFunc(c.Info, call) != fn || len(call.Args) != 1 {
+						return 0, false, false
+					}
+					sel, ok := ast.Unparen(call.Fun).(*ast.SelectorExpr)
+					if !ok || prog.SelField(c.Info, sel.X) != recvField || arg() == nil || prog.IdentObj(c.Info, call.Args[0]) != arg() {
+						return 0, false, false
+					}
+					return 0, false, true
+				}
+			}
+			isConstBool := func(c *pathsim.Ctx, e ast.Expr, want string) bool {
+				tv, ok := c.Info.Types[e]
+				return ok && tv.Value != nil && tv.Value.String() == want
+			}
+			if tblRange != nil {
+				asked := r.P.FuncObj("workers/operator", "(*neighborPartition).NeedsTable")
+				spec := &pathsim.Spec{Atom: atomFor(contains, ownRange, func() types.Object { return tblRange })}
+				spec.Step = func(c *pathsim.Ctx, s pathsim.State, ev *pathsim.Event) []pathsim.State {
+					if ev.Kind == pathsim.EvFuncLit || (ev.Kind == pathsim.EvCall && ev.Callee == types.Object(asked)) {
+						s.A = 1 // neighbours are being asked
+						return []pathsim.State{s}
+					}
+					if ev.Kind == pathsim.EvReturn && len(ev.Results) == 2 && s.A == 0 && isConstBool(c, ev.Results[0], "true") && s.V[0] != pathsim.True {
+						c.Violate(ev.Pos, "[shortcut-unguarded] ExclusivelyOwnsTable answers 'exclusively owned' without asking any neighbour on a path where the own range was not established to contain the table's range")
+					}
+					return nil
+				}
+				r.Sim(f.Decl, f.Name()+":shortcut", spec)
+			}
+			// neighborPartition.NeedsTable
+			nt := r.P.Func("workers/operator", "(*neighborPartition).NeedsTable")
+			ni := nt.Pkg.TypesInfo
+			nRange := r.P.Field("workers/operator", "neighborPartition", "keyGroupRange")
+			opField := r.P.Field("workers/operator", "neighborPartition", "operator")
+			kgrT := r.P.TypeName("partitioning", "KeyGroupRange")
+			var ntRange types.Object
+			ast.Inspect(nt.Decl.Body, func(nd ast.Node) bool {
+				as, ok := nd.(*ast.AssignStmt)
+				if !ok || len(as.Lhs) != 1 || len(as.Rhs) != 1 {
+					return true
+				}
+				cl, ok := ast.Unparen(as.Rhs[0]).(*ast.CompositeLit)
+				if !ok || ni.TypeOf(cl) != kgrT.Type() {
+					if call, ok := ast.Unparen(as.Rhs[0]).(*ast.CallExpr); ok && r.P.CalleeFunc(ni, call) == fromBytes && len(call.Args) == 2 && isKeyPrefix(nt, call.Args[0], 2) && isKeyPrefix(nt, call.Args[1], 3) {
+						ntRange = prog.IdentObj(ni, as.Lhs[0])
+					}
+					return true
+				}
+				r.Site(cl.Pos(), "NeedsTable: table range literal")
+				okS, okE := false, false
+				for _, el := range cl.Elts {
+					kv, ok := el.(*ast.KeyValueExpr)
+					if !ok {
+						continue
+					}
+					param := -1
+					ast.Inspect(kv.Value, func(m ast.Node) bool {
+						if call, ok := m.(*ast.CallExpr); ok && r.P.CalleeFunc(ni, call) == kgFromBytes && len(call.Args) == 1 {
+							for _, pi := range []int{2, 3} {
+								if isKeyPrefix(nt, call.Args[0], pi) {
+									param = pi
+								}
+							}
+						}
+						return true
+					})
+					switch kv.Key.(*ast.Ident).Name {
+					case "Start":
+						okS = param == 2
+					case "End":
+						okE = param == 3
+					}
+				}
+				if okS && okE {
+					ntRange = prog.IdentObj(ni, as.Lhs[0])
+				} else {
+					r.Fail(nt.Name()+":table-range", cl.Pos(), nil, "NeedsTable's table range must take Start from startKey[:2] and End from endKey[:2] (start ok: %v, end ok: %v)", okS, okE)
+				}
+				return true
+			})
+			if ntRange == nil {
+				r.Fail(nt.Name()+":no-table-range", nt.Decl.Pos(), nil, "NeedsTable does not derive the table's key-group range from its first and last key")
+				return
+			}
+			spec := &pathsim.Spec{Atom: atomFor(overlaps, nRange, func() types.Object { return ntRange })}
+			rpcReturned := false
+			spec.Step = func(c *pathsim.Ctx, s pathsim.State, ev *pathsim.Event) []pathsim.State {
+				if ev.Kind != pathsim.EvReturn || len(ev.Results) == 0 {
+					return nil
+				}
+				if call, ok := ast.Unparen(ev.Results[0]).(*ast.CallExpr); ok {
+					if sel, ok := ast.Unparen(call.Fun).(*ast.SelectorExpr); ok && sel.Sel.Name == "NeedsTable" && prog.SelField(c.Info, sel.X) == opField {
+						rpcReturned = true
+						return nil
+					}
+				}
+				if len(ev.Results) == 2 && isConstBool(c, ev.Results[0], "false") && s.V[0] != pathsim.False {
+					c.Violate(ev.Pos, "[prefilter-unguarded] NeedsTable answers 'not needed' without asking the neighbour on a path where the neighbour's range was not established NOT to overlap the table's range: the owner would delete a table the neighbour's retained checkpoint references")
+				}
+				return nil
+			}
+			r.Sim(nt.Decl, nt.Name(), spec)
+			r.Site(nt.Decl.Pos(), "NeedsTable pre-filter")
+			if !rpcReturned {
+				r.Fail(nt.Name()+":no-rpc", nt.Decl.Pos(), nil, "NeedsTable never returns the neighbour operator's own answer")
 			}
 		}})
 
